@@ -80,7 +80,11 @@ def _text_lines(draw, enc, kind, declared):
     n = draw(st.integers(1, 5))
     lines = draw(st.lists(st.sampled_from(pool), min_size=n, max_size=n))
 
-    if draw(st.integers(0, 7)) == 0:
+    if draw(st.integers(0, 5)) == 0:
+        # a tiny text (shorter than its own indentation)
+        lines = [draw(st.sampled_from(['', 'x', 'ab']))]
+        n = 1
+    elif draw(st.integers(0, 7)) == 0:
         # a long line (longer than the reader's read-ahead block)
         k = draw(st.sampled_from([90, 95, 96, 97, 191, 192, 193, 300]))
         lines[draw(st.integers(0, n - 1))] = 'L' * k
@@ -144,7 +148,7 @@ def docs(draw, allow_unencoded=True, allow_nonobject_meta=False,
         kind = draw(st.sampled_from(['unix', 'unix', 'dos']))
         declared = draw(st.booleans())
         lines = draw(_text_lines(raw_codec, kind, declared))
-        indent = draw(st.sampled_from([None, None, 0, 1, 4, 4, 7]))
+        indent = draw(st.sampled_from([None, None, 0, 1, 4, 4, 4, 7, 7]))
         sections.append({
             'id': sid, 'encoding': own, 'raw_codec': raw_codec,
             'lines': lines, 'kind': kind, 'declare_le': declared,
